@@ -467,7 +467,7 @@ class Fock(BaseState):
                     " attempted to be anniilated?"
                 )
             if operation.renormalize:
-                self.state = self.state / jnp.linalg.norm(self.state)
+                self.state = self.state / jnp.trace(self.state)
 
         C = Config()
         if C.contractions:
